@@ -49,7 +49,7 @@ for _row in TEMPLATES:
     for _t in _row:
         try:
             _t.render(a=1, b=1, l=[1], o={"k": 1})  # load partials now
-        except LiquidError:
+        except Exception:  # noqa: BLE001
             pass
 
 
